@@ -2,6 +2,7 @@
 from __future__ import annotations
 
 import copy
+import itertools
 import warnings
 
 import numpy as np
@@ -40,7 +41,7 @@ RULE = ("metamorphic: a grammar program (C01's space, all operation groups) is "
         "non-trivial = the assignment puts ImplStored or ImplSubstitution on "
         ">= 1 inner (non-output) operation node; distinct by (program, "
         "assignment)")
-RULE += '  Round-4 additions: 0-d real placeholders may get ForceValueArgTag (passed by value); 78 enumerated programs in which ONE buffer is wrapped by two DataWrapper nodes of which one or both carry user/axis/PrefixNamed/ImplStored tags.'
+RULE += '  Round-4 additions: 0-d real placeholders may get ForceValueArgTag (passed by value); 78 enumerated programs in which ONE buffer is wrapped by two DataWrapper nodes of which one or both carry user/axis/PrefixNamed/ImplStored tags.  Round 5: 36 programs with two stored arrays produced by the same subscript/expression in different shapes, under both output-name orders.'
 ASSUMPTIONS = [
     "loopy's C target + gcc stand in for the OpenCL target",
     "on this image every reduction is stored regardless of tags "
@@ -251,7 +252,8 @@ def run_shard(shard: int, nshards: int, seed: int, tier: str) -> ShardResult:
 
     hyp_run(st.tuples(progen.programs(cfg), st.data()), body, seed,
             pl["examples"])
-    for k, case in enumerate(shared_buffer_gadgets()):
+    for k, case in enumerate(itertools.chain(shared_buffer_gadgets(),
+                                             stored_twin_gadgets())):
         if k % nshards != shard:
             continue
         res.evaluations += 1
@@ -293,6 +295,43 @@ def shared_buffer_gadgets():
                 yield {"spec": spec, "tags": {"1": t1}}
                 yield {"spec": spec, "tags": {"0": t1}}
             yield {"spec": spec, "tags": {"0": tagsets[0], "1": tagsets[1]}}
+
+
+def stored_twin_gadgets():
+    """two ImplStored arrays computed by the SAME subscript / expression from
+    the same operand, but of different shapes (x[:2, :3] and x[:2, :5]; x + 1
+    restricted two ways; zeros of two shapes), under both orders of the output
+    names: each needs storage of its own"""
+    x = {"op": "placeholder", "p": {"name": "x", "dtype": "float64",
+                                    "shape": [4, 6], "scale": 0,
+                                    "values": list(range(1, 25))}}
+    pairs = [
+        ([{"op": "index", "args": [["n", 0]], "p": {"idx": [
+            ["slice", None, 2, None], ["slice", None, 3, None]]}},
+          {"op": "index", "args": [["n", 0]], "p": {"idx": [
+              ["slice", None, 2, None], ["slice", None, 5, None]]}}]),
+        ([{"op": "index", "args": [["n", 0]], "p": {"idx": [
+            ["slice", None, 3, None]]}},
+          {"op": "index", "args": [["n", 0]], "p": {"idx": [
+              ["slice", None, 2, None]]}}]),
+        ([{"op": "zeros", "p": {"shape": [2, 3], "dtype": "float64"}},
+          {"op": "zeros", "p": {"shape": [2, 5], "dtype": "float64"}}]),
+    ]
+    for a, b in pairs:
+        for first, second in (("o1", "o2"), ("o2", "o1")):
+            for ta, tb in (("ImplStored", "ImplStored"),
+                           ("ImplStored", None), (None, "ImplStored")):
+                nodes = [x, a, b,
+                         {"op": "add", "args": [["n", 1], ["n", 1]]},
+                         {"op": "add", "args": [["n", 2], ["n", 2]]}]
+                tags = {}
+                if ta:
+                    tags["1"] = [[ta]]
+                if tb:
+                    tags["2"] = [[tb]]
+                yield {"spec": {"nodes": nodes,
+                                "outputs": [[first, 3], [second, 4]]},
+                       "tags": tags}
 
 
 def replay(case) -> Failure | None:
